@@ -70,7 +70,7 @@ class C13(Prop):
             "terminator is the last accessible byte. non-trivial = text with >= 1 comment and >= 1 string containing a backslash followed "
             "by >= 1 further string token; fuzz inputs: contain a quote and a slash or backslash; distinct by text hash")
     ASSUMPTIONS = ["a // comment that is not closed by LF before the terminator and an unterminated /* are treated as running to the end of the text"]
-    REQUIRED_CLASSES = ["nontrivial_text", "string_ending_in_backslash", "block_comment", "line_comment", "safety_bytes"]
+    REQUIRED_CLASSES = ["nontrivial_text", "string_ending_in_backslash", "block_comment", "line_comment", "safety_bytes", "buffer_reused"]
 
     def budget(self, tier):
         return {"workers": 10, "examples": 1500 if tier == "quick" else 30000}
@@ -156,6 +156,26 @@ class C13(Prop):
         again = self.minify(lib, out)
         if again != out:
             raise Violation("minifying twice differs from minifying once: %r vs %r" % (again[:120], out[:120]), key="idempotence")
+        # history in ONE buffer: the text is minified, then a different un-minified text of exactly the result's length is stored
+        # at the same address and minified (whatever a call remembers about "the buffer it has just produced" is wrong now)
+        if len(want) >= 4 and len(text) > len(want):
+            filler = [b"[]", b"0", b'""', b"{}", b"[1]", b'{"a":1}', b"true"][len(want) % 7]
+            if len(filler) < len(want):
+                t2 = b" " * (len(want) - len(filler)) + filler
+                assert len(t2) == len(want)
+                buf = lib.guard_rw(text + b"\x00", len(text) + 1)
+                try:
+                    lib.cJSON_Minify(buf)
+                    first = ctypes.string_at(buf)
+                    ctypes.memmove(buf, t2 + b"\x00", len(t2) + 1)
+                    lib.cJSON_Minify(buf)
+                    second = ctypes.string_at(buf)
+                finally:
+                    lib.guard_release(buf)
+                stats.cls("buffer_reused")
+                if first != want or second != filler:
+                    raise Violation("a buffer minified to %r, then refilled with %r (same address, same length as that result) minifies to %r, not %r" % (
+                        first[:80], t2[:80], second[:80], filler), key="reuse")
         if lib.ledger_live() != 0:
             raise Violation("Minify allocated memory", key="leak")
 
